@@ -136,6 +136,28 @@ def tables(p):
     return rules, terms
 
 
+def declared_priorities(g):
+    """priorities as WRITTEN in the grammar text: {name: N} for every definition `name.N: ...` (rules and terminals);
+    independent of lark's loader"""
+    import re
+    out = {}
+    for m in re.finditer(r'(?m)^[ \t]*[?!]*(\w+)\.(-?\d+)[ \t]*:', g):
+        out[m.group(1)] = int(m.group(2))
+    return out
+
+
+def declared_tables(g, p):
+    """tables(p) with the priorities replaced by the DECLARED ones: every compiled alternative of a rule written
+    `name.N:` has priority N (None without a declaration; helper rules of EBNF operators have none), a terminal written
+    `T.N:` has priority N (0 without).  This is what the optimum is measured with and what the loaded tables are
+    compared against - the priorities on lark's own Rule objects are an observation, not the reference."""
+    rules, terms = tables(p)
+    decl = declared_priorities(g)
+    rules = [dict(r, prio=decl.get(r['origin'])) for r in rules]
+    terms = {n: dict(t, prio=decl.get(n, 0)) for n, t in terms.items()}
+    return rules, terms
+
+
 def gen_ignore_grammar(rng, regexps=None):
     """Grammar for the dynamic lexers whose %ignore terminals overlap its own terminals: string literals over
     {a,b} as terminals, one to three %ignore'd literals of different lengths chosen among strings that are a
